@@ -118,17 +118,13 @@ def refOf : List Nat → Ref
   | [] => .nil
   | a :: _ => .cell a
 
-/-- fresh cells for `vs`, laid out from address `base`, the last cdr being `tail` -/
-def mkCells (base : Nat) : List Val → Ref → List Cell
-  | [], _ => []
-  | [v], tail => [⟨v, tail⟩]
-  | v :: w :: vs, tail => ⟨v, .cell (base + 1)⟩ :: mkCells (base + 1) (w :: vs) tail
-
-/-- allocate a fresh list holding `vs` whose last cdr is `tail` -/
-def allocList (h : Heap) (vs : List Val) (tail : Ref) : Heap × Ref :=
-  match vs with
-  | [] => (h, tail)
-  | _ :: _ => (h ++ mkCells h.length vs tail, .cell h.length)
+/-- allocate a fresh list holding `vs` whose last cdr is `tail`: one `cons` per element, from the
+    last element backwards (so every new cell points at an older address or at `tail`) -/
+def allocList (h : Heap) : List Val → Ref → Heap × Ref
+  | [], tail => (h, tail)
+  | v :: vs, tail =>
+    let (h1, r) := allocList h vs tail
+    (h1 ++ [⟨v, r⟩], .cell h1.length)
 
 def setCar (h : Heap) (a : Nat) (v : Val) : Heap :=
   match h[a]? with
@@ -195,12 +191,19 @@ def Op.listArgs : Op → List Ref
   | .add x _ | .nreverse x | .sort x | .delete _ x => [x]
   | .append x y | .rplacd x y | .nconc x y => [x, y]
 
-/-- split the chain of a `remove`: the cells before and including the last removed one, and the
-    (shared) rest.  `none` when nothing is removed. -/
-def splitAtLastRemoved (p : Pred) (h : Heap) (as : List Nat) : Option (List Nat × List Nat) :=
-  let flags := (carsOf h as).map p.test
-  let n := flags.length - (flags.reverse.takeWhile (fun b => !b)).length   -- index after the last `true`
-  if n = 0 then none else some (as.take n, as.drop n)
+/-- `remove` on the cells `as` of the argument (read in `h0`): as soon as nothing further is to be
+    removed the remaining cells are shared (the language allows the result to share a tail with the
+    argument, and to be the argument itself when nothing is removed); before that, kept elements
+    are copied into fresh cells. -/
+def removeCells (p : Pred) (h0 : Heap) : List Nat → Heap × Ref
+  | [] => (h0, .nil)
+  | a :: as =>
+    if (carsOf h0 (a :: as)).all (fun v => !p.test v) then (h0, .cell a)
+    else
+      let (h1, r) := removeCells p h0 as
+      match h0[a]? with
+      | some c => if p.test c.car then (h1, r) else (h1 ++ [⟨c.car, r⟩], .cell h1.length)
+      | none => (h1, r)
 
 /-- the heap transformer of each operation: new heap and the reference of the result -/
 def run (h : Heap) : Op → Except Err (Heap × Ref)
@@ -236,29 +239,26 @@ def run (h : Heap) : Op → Except Err (Heap × Ref)
       .ok (allocList h (carsOf h as).reverse .nil)
   | .remove p x => do
       let as ← chainOf h x
-      match splitAtLastRemoved p h as with
-      | none => .ok (h, x)                                     -- nothing removed: the argument itself
-      | some (pre, rest) => .ok (allocList h (vRemove p (carsOf h pre)) (refOf rest))
+      .ok (removeCells p h as)
   | .mapcar f x => do
       let as ← chainOf h x
       .ok (allocList h (vMapcar f (carsOf h as)) .nil)
-  | .rplaca x v =>
-      match x with
-      | .nil => .error .type
-      | .cell a => if a < h.length then .ok (setCar h a v, x) else .error .fuel
+  | .rplaca x v => do
+      let as ← chainOf h x
+      match as with
+      | [] => .error .type
+      | a :: _ => .ok (setCar h a v, x)
   | .setNth n x v => do
       let as ← chainOf h x
       match as[n]? with
       | none => .error .range
       | some a => .ok (setCar h a v, x)
-  | .rplacd x y =>
-      match x with
-      | .nil => .error .type
-      | .cell a => do
-          let bs ← chainOf h y
-          if a < h.length then
-            if bs.contains a then .error .circular else .ok (setCdr h a y, x)
-          else .error .fuel
+  | .rplacd x y => do
+      let as ← chainOf h x
+      let bs ← chainOf h y
+      match as with
+      | [] => .error .type
+      | a :: _ => if bs.contains a then .error .circular else .ok (setCdr h a y, x)
   | .nconc x y => do
       let as ← chainOf h x
       let bs ← chainOf h y
